@@ -6,10 +6,16 @@
                               be the left factor, and the right factor starts with ( ⌊ ⌈, a function name or a
                               literal; constants, @, superscripts, ° and rad are not in the trigger set and are
                               not juxtaposition-capable
-      C12_*_examples          6/2(3), 2^3(4), -2(3)!; and the rejected forms  @(1)  pi(1)  1 pi  1 @  1²(2)  1°(2) *)
+      C12_*_examples          6/2(3), 2^3(4), -2(3)!; and the rejected forms  @(1)  pi(1)  1 pi  1 @  1²(2)  1°(2)
+      C12_forbidden_juxtapositions_rejected
+                              for EVERY token sequence of every evaluator: if the placeholder, a constant, a postfix
+                              degree / radian operator or a superscript exponent is directly followed by a token that
+                              would start an implicit right factor (an opening bracket, a function name, a literal), or if
+                              the placeholder or a constant directly follows a token that ends an operand (a literal, a
+                              closing bracket, @, a constant, ° / rad, a superscript, !), the input is rejected (Err) *)
 From Coq Require Import List NArith ZArith Bool.
 From SC Require Import Base.Res Base.F64 Base.Dec Base.Num Base.Oracle Lang.Syntax Lang.Parser Gen.Tables
-  Spec.Surface Proofs.Grammar Proofs.Subst Proofs.Juxt.
+  Spec.Surface Proofs.Grammar Proofs.Subst Proofs.Juxt Proofs.Adjacent.
 Import ListNotations.
 
 Theorem C12_f64_juxt_is_product :
@@ -164,3 +170,32 @@ Theorem C12_f64_more_examples :
       = Ok (NBin BMultiply (NUn UFloor (NNum a)) (NUn USin (NNum b))).
 Proof. intros. repeat split; vm_compute; reflexivity. Qed.
 Print Assumptions C12_f64_more_examples.
+
+(** the general rejection theorem, for all inputs *)
+Theorem C12_forbidden_juxtapositions_rejected :
+  (forall (ph : f64) ts x y, adj x y ts ->
+     (quiet pt_f64 x = true /\ trig pt_f64 y = true) \/ (ender pt_f64 x = true /\ atom pt_f64 y = true) -> parse pt_f64 ph ts = Err) /\
+  (forall (ph : Z) ts x y, adj x y ts ->
+     (quiet pt_i64 x = true /\ trig pt_i64 y = true) \/ (ender pt_i64 x = true /\ atom pt_i64 y = true) -> parse pt_i64 ph ts = Err) /\
+  (forall (ph : dec) ts x y, adj x y ts ->
+     (quiet pt_decimal x = true /\ trig pt_decimal y = true) \/ (ender pt_decimal x = true /\ atom pt_decimal y = true) -> parse pt_decimal ph ts = Err) /\
+  (forall (ph : f64 * f64) ts x y, adj x y ts ->
+     (quiet pt_complex x = true /\ trig pt_complex y = true) \/ (ender pt_complex x = true /\ atom pt_complex y = true) -> parse pt_complex ph ts = Err) /\
+  (forall (ph : number) ts x y, adj x y ts ->
+     (quiet pt_number x = true /\ trig pt_number y = true) \/ (ender pt_number x = true /\ atom pt_number y = true) -> parse pt_number ph ts = Err).
+Proof.
+  repeat split; intros ph ts x y A [[Q Tr]|[En At]];
+    first [ eapply quiet_then_trigger_rejected; eauto; vm_compute; reflexivity
+          | eapply ender_then_atom_rejected; eauto; vm_compute; reflexivity ].
+Qed.
+Print Assumptions C12_forbidden_juxtapositions_rejected.
+
+(** what the four token classes are, on the regenerated tables (eval_f64 shown; the other tables pass the same side conditions) *)
+Example C12_token_classes :
+  forall v : f64,
+    forallb (quiet pt_f64) [TK KAns; TK KPi; TK KE; TK KDegToRad; TK KRadToDeg; TSup v] = true /\
+    forallb (trig pt_f64) [TK KLeftParen; TK KLeftFloor; TK KLeftCeiling; TK (KFunc FSin); TK (KFunc FMin); TNum v] = true /\
+    forallb (atom pt_f64) [TK KAns; TK KPi; TK KE] = true /\
+    forallb (ender pt_f64) [TNum v; TK KRightParen; TK KRightFloor; TK KRightCeiling; TK KAns; TK KPi; TK KDegToRad; TSup v; TK KExclamationMark] = true /\
+    forallb (fun t => negb (quiet pt_f64 t)) [TNum v; TK KRightParen; TK KExclamationMark; TK KAdd] = true.
+Proof. intros. repeat split; vm_compute; reflexivity. Qed.
